@@ -13,12 +13,13 @@ from .vals import (OutOfReach, Arr, ExprArr, ArrView, SpecArr, FunVal, Obj, INT,
 from .interp import Module, load_module, State, Obligation, Contract, Ctx
 from .execu import Exec, Frame, parse_annotation, loop_fingerprint, assigned_names, MAX_UNROLL
 from .bufs import Buf, BufRef, BufView, BufCopy, FIELD
+from .flat import FlatView
 
-BUILTINS = {'full_like', 'solve', 'arange', 'atleast_1d', 'len', 'range', 'enumerate', 'min', 'max', 'abs', 'int', 'float', 'bool', 'empty', 'zeros', 'ones',
+BUILTINS = {'slice', 'transpose', 'split', 'full_like', 'solve', 'arange', 'atleast_1d', 'len', 'range', 'enumerate', 'min', 'max', 'abs', 'int', 'float', 'bool', 'empty', 'zeros', 'ones',
             'empty_like', 'zeros_like', 'sum', 'tuple', 'list', 'isinstance', 'print', 'zip', 'floor', 'sqrt',
             'exp', 'tanh', 'cosh', 'cos', 'sin', 'RuntimeError', 'ValueError', 'AssertionError', 'NotImplementedError',
             'str', 'reversed', 'sorted', 'all', 'any', 'prod', 'pi', 'mod', 'fabs', 'log', 'dict', 'set'}
-SPEC_BUILTINS = {'coll_trace', 'interp_val', 'holds', 'valid', 'field_of', 'layout_of', 'same_content', 'distinct_bufs', 'same_buf', 'bufview', 'name_id', 'split', 'uknots', 'forall', 'exists', 'sum_', 'implies', 'and_', 'iff', 'old', 'ite_', 'shape', 'let', 'select', 'real', 'fdiv', 'fmod', 'trunc'}
+SPEC_BUILTINS = {'flatidx', 'prodof', 'coll_trace', 'interp_val', 'holds', 'valid', 'field_of', 'layout_of', 'same_content', 'distinct_bufs', 'same_buf', 'bufview', 'name_id', 'split', 'uknots', 'forall', 'exists', 'sum_', 'implies', 'and_', 'iff', 'old', 'ite_', 'shape', 'let', 'select', 'real', 'fdiv', 'fmod', 'trunc'}
 
 import vf.execu as _execu
 _execu.BUILTINS = BUILTINS
@@ -45,6 +46,13 @@ class Engine(Exec):
             return self.call_pymethod(f, args, kwargs, st, fr, node)
         if f.kind == 'bufmethod':
             return self.buf_method(st, fr, f, args)
+        if f.kind == 'arrmethod':
+            if f.name == 'reshape':
+                shp = args[0] if len(args) == 1 else list(args)
+                return self.flat_reshape(st, fr, f.ref, shp, node)
+            if f.name == 'transpose':
+                order = args[0] if len(args) == 1 and isinstance(args[0], (list, tuple)) else list(args)
+                return self.flat_transpose(st, f.ref, order)
         if f.kind == 'mpi':
             return self.mpi_call(f, args, kwargs, st, fr, node)
         if f.kind in ('repo', 'method', 'param', 'class'):
@@ -77,6 +85,26 @@ class Engine(Exec):
                 return r
         if name.endswith('.warn') or name == 'warn':
             return None
+        if name == 'split' and args and self.is_arr(args[0]) and args[0].rank == 1:
+            x, cuts = args[0], args[1]
+            if not (isinstance(cuts, (list, tuple)) and len(cuts) == 1):
+                raise OutOfReach('np.split with several cut points')
+            n = cuts[0]
+            self.safety(st, fr, 'slice_bounds', b_and(compare('GtE', n, 0), compare('LtE', n, x.shape[0])), node)
+            return [self.subscript(st, fr, x, slice(0, n), node), self.subscript(st, fr, x, slice(n, x.shape[0]), node)]
+        if name == 'transpose' and args and self.is_arr(args[0]):
+            return self.flat_transpose(st, args[0], args[1])
+        if name == 'prod' and getattr(self.ctx, 'flat_mode', False) and isinstance(args[0], (list, tuple)) and any(is_sym(x) for x in args[0]):
+            from .flat import prod_term
+            return simp(prod_term(list(args[0])))
+        if name == 'slice':
+            return slice(*args) if len(args) > 1 else slice(None, args[0])
+        if name == 'flatidx':
+            from .flat import flat_term
+            return simp(flat_term(list(args[0]), list(args[1])))
+        if name == 'prodof':
+            from .flat import prod_term
+            return simp(prod_term(list(args[0])))
         if name == 'coll_trace':
             return list(st.ghost.get('trace', ()))
         if name == 'atleast_1d':
@@ -718,7 +746,7 @@ class Engine(Exec):
 
     def assign(self, t, v, st, fr):
         if isinstance(t, ast.Name):
-            if isinstance(v, ExprArr) and not isinstance(v, ArrView):
+            if isinstance(v, ExprArr) and not isinstance(v, (ArrView, FlatView)):
                 # materialise: a new array object
                 a = self.new_arr(st, v.rank, v.shape, v.elem, t.id)
                 st.heap[a.aid] = self.arr_term(st, v)
@@ -740,7 +768,7 @@ class Engine(Exec):
         elif isinstance(t, ast.Attribute):
             base = self.ev(t.value, st, fr)
             if isinstance(base, Obj):
-                if isinstance(v, ExprArr) and not isinstance(v, ArrView):
+                if isinstance(v, ExprArr) and not isinstance(v, (ArrView, FlatView)):
                     a = self.new_arr(st, v.rank, v.shape, v.elem, t.attr)
                     st.heap[a.aid] = self.arr_term(st, v)
                     v = a
@@ -912,6 +940,19 @@ class Engine(Exec):
                 return 0, seq.shape[0], bind, iname
             seq = list(seq)
             return 0, len(seq), (lambda s, i: (self.assign(tgt.elts[0], i, s, fr), self.assign(tgt.elts[1], seq[i], s, fr))), iname
+        if isinstance(it, ast.Call) and isinstance(it.func, ast.Name) and it.func.id == 'zip' and 'zip' not in st.env:
+            seqs = [self.ev(a, st, fr) for a in it.args]
+            if all(self.is_arr(q) and q.rank == 1 for q in seqs) and not all(is_cint(q.shape[0]) for q in seqs):
+                if not (isinstance(tgt, ast.Tuple) and len(tgt.elts) == len(seqs)):
+                    raise OutOfReach('zip target')
+                # zip stops at the shortest sequence: the contract must make the lengths equal (obligation)
+                for q in seqs[1:]:
+                    self.safety(st, fr, 'zip_lengths', compare('Eq', q.shape[0], seqs[0].shape[0]), node)
+
+                def bindz(s, i, seqs=seqs):
+                    for te, q in zip(tgt.elts, seqs):
+                        self.assign(te, simp(self.elem_fn(s, q)((i,))), s, fr)
+                return 0, seqs[0].shape[0], bindz, '_i'
         seq = self.ev(it, st, fr)
         if isinstance(seq, V.SymRange):
             if not isinstance(tgt, ast.Name):
